@@ -328,7 +328,7 @@ type RouteCase struct {
 }
 
 var subRoutes = ev.Register("route-table",
-	"every registered API route and method (enumerated from the source with go/parser: the endpoints literal, each type's Path() and EndpointMethods() literals; each must also exist on the real mux) x cookie class (absent, random, logged-out, expired by 1 ms .. 1 h, live) x Origin / Sec-Fetch-Site combination, against the real mux wrapped in middleware.Harden with a migrated scratch database; oracle: a route other than login without a live cookie answers 401 and changes nothing (configuration vector, var/config.json, password hashes); with a live cookie it does not answer 401; a cross-site request (Sec-Fetch-Site: cross-site with an Origin) and an OPTIONS with an Origin answer 403 and change nothing; non-trivial = not (GET with no cookie and no site headers); distinct by (route, cookie class, margin class, site class)",
+	"every registered API route and method (enumerated from the source with go/parser: the endpoints literal, each type's Path() and EndpointMethods() literals; each must also exist on the real mux) x cookie class (absent, random, logged-out, expired by 1 ms .. 1 h, live) x Origin / Sec-Fetch-Site combination, against the real mux wrapped in middleware.Harden with a migrated scratch database; oracle: a route other than login without a live cookie answers 401 and changes nothing (configuration vector, var/config.json, password hashes); with a live cookie it does not answer 401; a cross-site request (Sec-Fetch-Site: cross-site with or without an Origin; a foreign or opaque Origin without Sec-Fetch-Site) and an OPTIONS with an Origin answer 403 and change nothing, a request whose Origin is the dashboard's own is treated like one without; non-trivial = not (GET with no cookie and no site headers); distinct by (route, cookie class, margin class, site class)",
 	func(c RouteCase, o *ev.Obs) *ev.Failure {
 		if len(routes) == 0 {
 			return ev.Failf("routes.none-found", "no routes could be enumerated from the source")
@@ -386,14 +386,23 @@ var subRoutes = ev.Register("route-table",
 			method = "OPTIONS"
 			hs["Origin"] = "https://evil.example"
 		case "origin-only":
+			// no Sec-Fetch-Site (a browser older than the header, or a form posted by one): the Origin names another site
 			hs["Origin"] = "https://evil.example"
+		case "origin-only-null":
+			hs["Origin"] = "null"
+		case "origin-only-same":
+			hs["Origin"] = srv.URL // the dashboard's own origin: not cross-site
+		case "cross-site+origin-same":
+			hs["Sec-Fetch-Site"], hs["Origin"] = "cross-site", srv.URL
 		}
 		before := snapshot()
 		st, _, body := do(reqSpec{Method: method, Path: rt.Path, Cookie: cookie, Headers: hs, Body: bodyFor(rt)})
 		after := snapshot()
 		live := c.Cookie == "live"
 		desc := fmt.Sprintf("%s %s cookie=%s(%dms) site=%s -> %d %q", method, rt.Path, c.Cookie, c.ExpMs, c.Site, st, clip(body))
-		if strings.HasPrefix(c.Site, "cross-site+origin") || strings.HasPrefix(c.Site, "options+origin") {
+		// cross-site: the browser says so (Sec-Fetch-Site: cross-site - with an Origin on form posts and CORS requests,
+		// without one on plain GETs), or, where Sec-Fetch-Site is missing, the Origin names another site
+		if strings.HasPrefix(c.Site, "cross-site") || strings.HasPrefix(c.Site, "options+origin") || c.Site == "origin-only" || c.Site == "origin-only-null" {
 			if st != 403 {
 				return ev.Failf("harden.cross-site-not-refused:"+c.Site, "%s: a cross-site request must be refused with 403", desc)
 			}
@@ -448,7 +457,7 @@ func clip(s string) string {
 }
 
 var cookieClasses = []string{"none", "random", "logged-out", "expired", "live"}
-var siteClasses = []string{"", "same-origin", "cross-site", "cross-site+origin", "cross-site+origin-null", "cross-site+origin-local", "options+origin", "options+origin-null", "origin-only"}
+var siteClasses = []string{"", "same-origin", "cross-site", "cross-site+origin", "cross-site+origin-null", "cross-site+origin-local", "cross-site+origin-same", "options+origin", "options+origin-null", "origin-only", "origin-only-null", "origin-only-same"}
 var margins = []int{1, 1000, 9 * 60 * 1000, 11 * 60 * 1000, 30 * 60 * 1000, 3600 * 1000}
 
 func TestRouteTable(t *testing.T) {
